@@ -58,6 +58,7 @@ class Contract:
         names = list(self.ensures) + list(self.raises)
         for cp in (self.extra.get('checkpoints') or {}).values():
             names.extend(cp)
+        names.extend(l.get('name', '') for l in (self.extra.get('lemmas') or []))
         for n in names:
             props.update(self.clause_props(n))
         return props
